@@ -109,7 +109,8 @@ func (c *compressor) decompressCellblocks(b []byte) ([]byte, error) {
 		// reserve more than the rest of the stream could plausibly expand to,
 		// or a few corrupt bytes make us ask for gigabytes.
 		grow := int(uncompressedBlockLen)
-		if limit := 64 * len(b); grow > limit {
+		if limit := 64 * len(b); grow > limit || grow < 0 {
+			// (negative: a length above MaxInt32 where int has 32 bits)
 			grow = limit
 		}
 		out = slices.Grow(out, grow)
@@ -123,6 +124,10 @@ func (c *compressor) decompressCellblocks(b []byte) ([]byte, error) {
 					"failed to read compressed chunk block length: %w", err)
 			}
 
+			if uint64(compressedChunkLen) > uint64(len(b)) {
+				return nil, fmt.Errorf("failed to read compressed chunk: "+
+					"short read: want %d bytes, got %d", compressedChunkLen, len(b))
+			}
 			compressedChunk, b, err = readN(b, int(compressedChunkLen))
 			if err != nil {
 				return nil, fmt.Errorf("failed to read compressed chunk: %w", err)
